@@ -332,3 +332,18 @@ case("c05-opt-nq2-sign", "C05", OP_BN, "    nQ2 = (Q1[0] ** field_modulus, -Q1[1
 case("c05-opt-line-untwisted", "C05", OPAIR, "            _n, _d = linefunc(twist_R, twist_Q, cast_P)", "            _n, _d = linefunc(twist_R, twist(R), cast_P)", rule="C05.R3")
 case("c05-ate-count-ref", "C05", RP_BLS, "ate_loop_count = 15132376222941642752", "ate_loop_count = 15132376222941642753")
 case("c05-twin-f-reassoc", "C05", RP_BN, "        f = f * f * linefunc(R, R, P)\n", "        l = linefunc(R, R, P)\n        f = l * (f * f)\n", expect="silent")
+
+# ---------------------------------------------------------------- C12
+case("c12-cofactor-wrong", "C12", OPAIR, "    cofactor = (field_modulus**4 - field_modulus**2 + 1) // curve_order", "    cofactor = (field_modulus**4 - field_modulus**2 + 1) // curve_order + 1", rule="C12.R1")
+case("c12-easy-part-five-frob", "C12", OPAIR, "    p3 = exp_by_p(exp_by_p(exp_by_p(exp_by_p(exp_by_p(exp_by_p(p2)))))) / p2", "    p3 = exp_by_p(exp_by_p(exp_by_p(exp_by_p(exp_by_p(p2))))) / p2", rule="C12.R1")
+case("c12-easy-part-mul-not-div", "C12", OPAIR, "exp_by_p(exp_by_p(exp_by_p(exp_by_p(exp_by_p(exp_by_p(p2)))))) / p2", "exp_by_p(exp_by_p(exp_by_p(exp_by_p(exp_by_p(exp_by_p(p2)))))) * p2")
+case("c12-exptable-range-11", "C12", OPAIR, "exptable = [FQ12([0] * i + [1] + [0] * (11 - i)) ** field_modulus for i in range(12)]", "exptable = [FQ12([0] * i + [1] + [0] * (11 - i)) ** field_modulus for i in range(11)]", rule="C12.R2")
+case("c12-exptable-wrong-power", "C12", OPAIR, "** field_modulus for i in range(12)]", "** (field_modulus - 1) for i in range(12)]", rule="C12.R2")
+case("c12-expbyp-seed", "C12", OPAIR, "        FQ12.zero(),\n    )", "        FQ12.one(),\n    )", rule="C12.R2")
+case("c12-ref-line-tangent", "C12", RP_BN, "        m = 3 * x1**2 / (2 * y1)\n        return m * (xt - x1) - (yt - y1)", "        m = 3 * x1**2 / (2 * y1)\n        return m * (xt - x1) - (yt + y1)", rule="C12.R3")
+case("c12-ref-line-vertical", "C12", RP_BLS, "    else:\n        return xt - x1\n", "    else:\n        return xt - x2 + x1 - x1 + x1\n")
+case("c12-flag-ignored", "C12", OP_BN, "        twist(Q), cast_point_to_fq12(P), final_exponentiate=final_exponentiate\n", "        twist(Q), cast_point_to_fq12(P), final_exponentiate=True\n", rule="C12.R4")
+case("c12-flag-false-powers", "C12", OPAIR, "    if final_exponentiate:\n        return f ** ((field_modulus**12 - 1) // curve_order)\n    else:\n        return f", "    if final_exponentiate:\n        return f ** ((field_modulus**12 - 1) // curve_order)\n    else:\n        return f ** 3")
+case("c12-bn-final-exp-ref", "C12", RP_BN, "def final_exponentiate(p: Field) -> Field:\n    return p ** ((field_modulus**12 - 1) // curve_order)", "def final_exponentiate(p: Field) -> Field:\n    return p ** ((field_modulus**12 - 1) // curve_order - 1)")
+case("c12-twin-expbyp-loop", "C12", OPAIR, "    return sum(\n        (table_entry * int(coeff) for table_entry, coeff in zip(exptable, x.coeffs)),\n        FQ12.zero(),\n    )",
+     "    acc = FQ12.zero()\n    for i in range(12):\n        acc = acc + exptable[i] * int(x.coeffs[i])\n    return acc", expect="silent")
